@@ -31,7 +31,9 @@ def gen(rng):
     # 4 inside a structure inside a structure (a path of three names)
     # 5 the response code of a GLOBAL-NEG-RESPONSE of the layer, the service having a NEG-RESPONSE of its own which lacks
     # the parameter
-    svcs = [dict(j=j + 1, shape=rng.choice([0, 0, 1, 2, 3, 4, 5])) for j in range(nsvc)]
+    # 6 a plain parameter of a real-valued physical type and large magnitude (1e9 + byte): compared numerically, with an
+    # absolute tolerance
+    svcs = [dict(j=j + 1, shape=rng.choice([0, 0, 1, 2, 3, 4, 5, 6])) for j in range(nsvc)]
     flavour = rng.choice(["ecu", "ecu", "base"])
     nvar = rng.choice([0, 1, 2, 3, 4])
     variants = []
@@ -43,7 +45,10 @@ def gen(rng):
             for _ in range(rng.choice([1, 1, 2, 3])):
                 s = rng.choice(svcs)
                 # (expected values are compared verbatim: blanks count)
-                pat.append(dict(svc=s["j"], expected=rng.choice(["0", "1", "2", "0", "1", "2", " 1", "2 "]), phys=rng.random() < 0.7))
+                exp = rng.choice(["0", "1", "2", "0", "1", "2", " 1", "2 "])
+                if s["shape"] == 6:
+                    exp = rng.choice(["1000000000", "1000000001", "1000000002"])
+                pat.append(dict(svc=s["j"], expected=exp, phys=rng.random() < 0.7))
             pats.append(pat)
         variants.append(pats)
     # ECU variants may define their own identification services (same names, same request bytes) whose
@@ -64,7 +69,11 @@ def svc_name(case, j):
 
 def emit(case):
     dops = ('<DATA-OBJECT-PROP ID="BV.dop"><SHORT-NAME>u8</SHORT-NAME><COMPU-METHOD><CATEGORY>IDENTICAL</CATEGORY></COMPU-METHOD>'
-            f'{U8}<PHYSICAL-TYPE BASE-DATA-TYPE="A_UINT32"/></DATA-OBJECT-PROP>')
+            f'{U8}<PHYSICAL-TYPE BASE-DATA-TYPE="A_UINT32"/></DATA-OBJECT-PROP>'
+            '<DATA-OBJECT-PROP ID="BV.fdop"><SHORT-NAME>big</SHORT-NAME><COMPU-METHOD><CATEGORY>LINEAR</CATEGORY><COMPU-INTERNAL-TO-PHYS>'
+            '<COMPU-SCALES><COMPU-SCALE><COMPU-RATIONAL-COEFFS><COMPU-NUMERATOR><V>1000000000</V><V>1</V></COMPU-NUMERATOR>'
+            '<COMPU-DENOMINATOR><V>1</V></COMPU-DENOMINATOR></COMPU-RATIONAL-COEFFS></COMPU-SCALE></COMPU-SCALES></COMPU-INTERNAL-TO-PHYS>'
+            f'</COMPU-METHOD>{U8}<PHYSICAL-TYPE BASE-DATA-TYPE="A_FLOAT64"/></DATA-OBJECT-PROP>')
     structs = ('<STRUCTURE ID="BV.st"><SHORT-NAME>st</SHORT-NAME><PARAMS><PARAM xsi:type="VALUE"><SHORT-NAME>id</SHORT-NAME>'
                '<DOP-REF ID-REF="BV.dop"/></PARAM></PARAMS></STRUCTURE>'
                '<STRUCTURE ID="BV.st2"><SHORT-NAME>st2</SHORT-NAME><PARAMS><PARAM xsi:type="VALUE"><SHORT-NAME>inner</SHORT-NAME>'
@@ -76,7 +85,8 @@ def emit(case):
            2: '<PARAM xsi:type="VALUE"><SHORT-NAME>id</SHORT-NAME><DOP-REF ID-REF="BV.dop"/></PARAM>',
            3: '<PARAM xsi:type="VALUE"><SHORT-NAME>items</SHORT-NAME><DOP-REF ID-REF="BV.eop"/></PARAM>',
            4: '<PARAM xsi:type="VALUE"><SHORT-NAME>data</SHORT-NAME><DOP-REF ID-REF="BV.st2"/></PARAM>',
-           5: '<PARAM xsi:type="VALUE"><SHORT-NAME>id</SHORT-NAME><DOP-REF ID-REF="BV.dop"/></PARAM>'}
+           5: '<PARAM xsi:type="VALUE"><SHORT-NAME>id</SHORT-NAME><DOP-REF ID-REF="BV.dop"/></PARAM>',
+           6: '<PARAM xsi:type="VALUE"><SHORT-NAME>id</SHORT-NAME><DOP-REF ID-REF="BV.fdop"/></PARAM>'}
     OTHER = '<PARAM xsi:type="VALUE"><SHORT-NAME>other</SHORT-NAME><DOP-REF ID-REF="BV.dop"/></PARAM>'
 
     def responses(pre, j, shape, lead=""):
@@ -109,7 +119,7 @@ def emit(case):
         out = {0: '<OUT-PARAM-IF-SNREF SHORT-NAME="id"/>', 1: '<OUT-PARAM-IF-SNPATHREF SHORT-NAME-PATH="data.id"/>',
                2: '<OUT-PARAM-IF-SNREF SHORT-NAME="id"/>', 3: '<OUT-PARAM-IF-SNPATHREF SHORT-NAME-PATH="items.id"/>',
                4: '<OUT-PARAM-IF-SNPATHREF SHORT-NAME-PATH="data.inner.id"/>',
-               5: '<OUT-PARAM-IF-SNREF SHORT-NAME="nrc"/>'}[shape]
+               5: '<OUT-PARAM-IF-SNREF SHORT-NAME="nrc"/>', 6: '<OUT-PARAM-IF-SNREF SHORT-NAME="id"/>'}[shape]
         phys = "" if tag == "MATCHING-PARAMETER" else f"<USE-PHYSICAL-ADDRESSING>{'true' if p['phys'] else 'false'}</USE-PHYSICAL-ADDRESSING>"
         return (f'<{tag}><EXPECTED-VALUE>{p["expected"]}</EXPECTED-VALUE><DIAG-COMM-SNREF SHORT-NAME="{svc_name(case, p["svc"])}"/>{out}{phys}</{tag}>')
 
@@ -159,6 +169,8 @@ def ref_match(p, resp, layout=0, shape=0):
     """independent reference: does the response satisfy the matching parameter?
     (a CODED-CONST mismatch only warns, so only the length and the value byte count)"""
     k = 3 + layout
+    if shape == 6:  # 1e9 + value byte, a real number
+        return len(resp) > k and abs(float(p["expected"]) - (1e9 + resp[k])) < 1e-8
     if shape == 5:  # 7F <sid> <response code>, read through the global negative response
         return len(resp) >= 3 and str(resp[2]) == p["expected"]
     if shape == 3:  # a field of one-byte items behind the constants: any item
@@ -188,6 +200,33 @@ def run_impl(case, db, ecu, use_cache):
     if e is not None:
         return ("error", type(e).__name__, str(e)[:100]), issued
     return r, issued
+
+
+def run_impl_interrupted(case, db, ecu, use_cache, k):
+    """the tester's send function fails at the k-th identification request (the loop is abandoned there), then the
+    request loop of the SAME matcher is run again to its end against the same ECU"""
+    from odxtools.variantmatcher import VariantMatcher
+    cands = [db.diag_layers[f"EV{i}"] for i in range(len(case["variants"]))]
+    m = VariantMatcher(cands, use_cache=use_cache)
+
+    def go():
+        n = 0
+        try:
+            for phys, rq in m.request_loop():
+                if n == k:
+                    raise TimeoutError("no answer")
+                n += 1
+                m.evaluate(ecu[bytes(rq)])
+        except TimeoutError:
+            pass
+        for phys, rq in m.request_loop():
+            m.evaluate(ecu[bytes(rq)])
+        return m.has_match(), (None if m.matching_variant is None else m.matching_variant.short_name)
+
+    r, e, _ = cc.guarded(go, timeout=10)
+    if e is not None:
+        return ("error", type(e).__name__, str(e)[:100])
+    return r
 
 
 def main(argv=None):
@@ -290,6 +329,19 @@ def main(argv=None):
                 if uc and len(set(issued)) != len(issued):
                     bad = "with caching a request was issued twice"
                     break
+            if bad is None and ei % 3 == 0:
+                # a run cut short by a send failure at the k-th request, then the loop run again: the outcome is that of an
+                # undisturbed run
+                for uc in (True, False):
+                    nreq = len(res[uc][1])
+                    for k in range(min(nreq, 3)):
+                        r2 = run_impl_interrupted(c, db, ecu, uc, k)
+                        ck.count(("interrupted", json.dumps(c), ei, uc, k))
+                        if r2 != res[uc][0]:
+                            bad = (f"request loop abandoned at request {k} and run again: {r2}, an undisturbed run gives {res[uc][0]} (cache={uc})")
+                            break
+                    if bad:
+                        break
             if bad:
                 ck.violation(bad, rep)
                 continue
